@@ -50,6 +50,8 @@ def run(chk):
                        'E-MIR kernels': 'loop kernels in merge mode, (n,c) in {(2,1),(3,1)}: result == semantics intersected with the unit set',
                        'E-MIR eval_node': 'raw results of the string entry points from MIR, n=2, c=1: inside the unit set and independent of every auxiliary variable',
                        'E-UNI': 'constrained instances C2, M2 (regulation constraints exclude colours): result & not unit unsatisfiable, result == semantics (hence independent of auxiliary variables)'})
+    from .. import conformance
+    conformance.run(chk, 2, 1); conformance.run(chk, 3, 0, samples=2)
     leaf_invariants(chk, 2, 1, 1)
     leaf_invariants(chk, 2, 2, 1)
     c01.kernel_part(chk, [(2, 1)] + ([(3, 1)] if thorough else []))
